@@ -106,9 +106,9 @@ func genSchedDec(g *G, tier string, emit func(string)) {
 		}
 		rec(n, nil)
 	}
-	// readers that answer (0, nil) after their last byte and only then report the end of input ("Z"; outside the
-	// schedule language of the reader model, whose end of input follows the last byte at once): the whole document,
-	// or one byte at a time, then one to three such reads — every document above, the cut ones included
+	// readers that answer (0, nil) after their last byte and only then report the end of input ("Z", a zero-length
+	// read like "0"): the whole document, or one byte at a time, then one to three such reads — every document
+	// above, the cut ones included
 	for _, d := range docs {
 		n := len(strings.Fields(d)[1]) / 2
 		for z := 1; z <= 3; z++ {
